@@ -3,12 +3,15 @@ use std::rc::Rc;
 use crate::{
     cfg::Cfg,
     parser::{HasRegisterSets, InstructionProperties, Register},
-    passes::{DiagnosticManager, LintError, LintPass},
+    passes::{DiagnosticLocation, DiagnosticManager, LintError, LintPass},
 };
 
 pub struct DeadValueCheck;
 impl LintPass for DeadValueCheck {
     fn run(cfg: &Cfg, errors: &mut DiagnosticManager) {
+        // Reads of garbage left behind by an ecall that were reported already
+        // (two ecalls can reach the same read)
+        let mut reported: Vec<(uuid::Uuid, crate::parser::Range)> = Vec::new();
         for node in cfg {
             // check the out of the node for any uses that
             // should not be there (temporaries)
@@ -39,6 +42,23 @@ impl LintPass for DeadValueCheck {
             else if let Some(def) = node.writes_to() {
                 if !node.live_out().contains(def.get()) && !node.can_skip_save_checks() {
                     errors.push(LintError::DeadAssignment(def));
+                }
+            }
+
+            // An environment call leaves garbage in every caller-saved
+            // register that is not one of its results, just like a function
+            // call does: a read of such a register that is reached from the
+            // ecall without an assignment in between reads that garbage.
+            if let Some((_, results)) = node.known_ecall_signature() {
+                let out = (Register::caller_saved_set() - results) & node.live_out();
+                for item in &out {
+                    for range in Cfg::error_ranges_for_first_usage(&node, item) {
+                        let place = (range.file(), range.range());
+                        if !reported.contains(&place) {
+                            reported.push(place);
+                            errors.push(LintError::InvalidUseBeforeAssignment(range));
+                        }
+                    }
                 }
             }
         }
